@@ -58,8 +58,8 @@ static Outcome runIniCase(const vj::Value& c)
 	std::vector<Entry> sets = entries(c["sets"]), exp = entries(c["exp"]);
 	Outcome res;
 	res.nontrivial = !sets.empty();
-	// quick tier (C18_HALF set): two of the four ways of writing per case, chosen by a hash of the case
-	bool half = getenv("C18_HALF") != 0;
+	// C18_HALF_INI set: two of the four ways of writing per case, chosen by a hash of the case
+	bool half = getenv("C18_HALF_INI") != 0;
 	unsigned pick = (unsigned)(vrun::fnv(text) >> 7) & 1;
 	for (int how = 0; how < 4; how++)
 	{
@@ -100,7 +100,7 @@ static Outcome runCsvCase(const vj::Value& c)
 	std::string why;
 	for (int variant = 0; variant < 4; variant++)
 	{
-		if (getenv("C18_HALF") && ((unsigned)variant & 1) != ((unsigned)(vrun::fnv(c["file"].bytes()) >> 7) & 1)) continue;
+		if (getenv("C18_HALF_CSV") && ((unsigned)variant & 1) != ((unsigned)(vrun::fnv(c["file"].bytes()) >> 7) & 1)) continue;
 		std::string path = pathFor("csv") + ".csv";
 		CsvResult r = runCsv(path, cols, rows, variant);
 		unlink(path.c_str());
